@@ -7,7 +7,9 @@ import DustVerif.Model.Listener
     `callbacks e c` (Model/Listener.lean) is what the code does for one status change `e` under the listener
     configuration `c` (three slots, each an arbitrary mask and an installed-or-nil listener): the
     `if / else if` chain of the raising site followed by the listener task of the chosen level.
-    `specCallbacks` below is the DDS rule, written independently. -/
+    `specCallbacks` below is the DDS rule, written independently.
+    The model is main + fixes/D38.patch, D-listen-1.patch, D-listen-2.patch, D-listen-3.patch; `callbacksOld`,
+    `dispatchOld`, `iterateOld` are the code before these patches (regression witnesses at the end). -/
 namespace DustVerif.Listener
 
 /-! ### specification -/
@@ -35,11 +37,11 @@ def specCallbacks (e : Event) (c : Chain) : List Mail :=
     else deliverTo c .dataAvailable (firstEnabled .dataAvailable c [.entity, .group, .participant])
   | e => deliverTo c e.status (firstEnabled e.status c (levels e))
 
-/-- the configurations in which the code as it is reaches the right listener: everything except
+/-- the configurations in which the code BEFORE the patches reached the right listener: everything except
     (a) new data while the reader's own mask lacks DATA_AVAILABLE but the subscriber's or participant's has it (D38),
     (b) an inconsistent topic while the TOPIC's own mask enables the status and a topic listener is installed
-        (the topic listener task discards the mail, D-listen-3) -/
-def Covered (e : Event) (c : Chain) : Prop :=
+        (the topic listener task discarded the mail, D-listen-3) -/
+def CoveredOld (e : Event) (c : Chain) : Prop :=
   match e with
   | .dataArrived =>
       c.group.enabled .dataOnReaders = true ∨ c.entity.enabled .dataAvailable = true ∨
@@ -47,18 +49,24 @@ def Covered (e : Event) (c : Chain) : Prop :=
   | .inconsistentTopic => ¬ (c.entity.enabled .inconsistentTopic = true ∧ c.entity.installed = true)
   | _ => True
 
-instance (e : Event) (c : Chain) : Decidable (Covered e c) := by
-  cases e <;> unfold Covered <;> exact inferInstance
+instance (e : Event) (c : Chain) : Decidable (CoveredOld e c) := by
+  cases e <;> unfold CoveredOld <;> exact inferInstance
 
 /-! ### theorems -/
 
-/-- every listener task except the topic's calls the callback: for all other events the callbacks are the mails -/
-theorem callbacks_eq_dispatch (e : Event) (c : Chain) (h : e ≠ .inconsistentTopic) :
-    callbacks e c = dispatch e c := by
+/-- every listener task calls the callback of the mail it receives: the callbacks are the mails -/
+theorem callbacks_eq_dispatch (e : Event) (c : Chain) : callbacks e c = dispatch e c := by
   unfold callbacks
   apply List.filter_eq_self.mpr
   intro m _
-  cases e <;> simp_all [taskInvokes]
+  rfl
+
+theorem callbacksOld_eq_dispatchOld (e : Event) (c : Chain) (h : e ≠ .inconsistentTopic) :
+    callbacksOld e c = dispatchOld e c := by
+  unfold callbacksOld
+  apply List.filter_eq_self.mpr
+  intro m _
+  cases e <;> simp_all [taskInvokesOld]
 
 theorem chain3_spec (k : Status) (c : Chain) :
     chain3 k c = deliverTo c k (firstEnabled k c [.entity, .group, .participant]) := by
@@ -70,82 +78,93 @@ theorem chain2_spec (k : Status) (c : Chain) :
   cases h1 : c.entity.enabled k <;> cases h3 : c.participant.enabled k <;>
     simp [chain2, firstEnabled, deliverTo, sendTo, Chain.slot, h1, h3]
 
-/-- C33 (the dispatch DECISION, all eight status kinds that have a precedence chain): for ALL masks and listener
-    placements the mail goes to the first level whose mask enables the status, to nobody if none does -/
-theorem C33_dispatch_decision (e : Event) (c : Chain) (h : e ≠ .dataArrived) :
-    dispatch e c = specCallbacks e c := by
+theorem dataArrived_spec (c : Chain) : dataArrived c = specCallbacks .dataArrived c := by
+  simp only [dataArrived, specCallbacks, chain3_spec, sendTo, deliverTo, Chain.slot]
+
+/-- C33 (the dispatch DECISION, all nine status-raising events): for ALL masks and listener placements the mail goes to
+    the first level whose mask enables the status, to nobody if none does; new data is DATA_ON_READERS on the subscriber
+    when enabled there, DATA_AVAILABLE along the same chain otherwise -/
+theorem C33_dispatch_decision (e : Event) (c : Chain) : dispatch e c = specCallbacks e c := by
   cases e <;> first
-    | exact absurd rfl h
+    | exact dataArrived_spec c
     | exact chain3_spec _ c
     | exact chain2_spec _ c
 
-/-- C33 (at most one callback per status change), full: for ALL events, masks and placements -/
-theorem C33_at_most_one (e : Event) (c : Chain) : (callbacks e c).length ≤ 1 := by
-  have hd : (dispatch e c).length ≤ 1 := by
-    cases e <;> simp only [dispatch, chain3, chain2, dataArrivedAsCoded, sendTo] <;> (repeat' split) <;> simp
-  exact Nat.le_trans (List.length_filter_le _ _) hd
+/-- C33 (FULL): for ALL events, masks and listener placements the listener callbacks made for one status change are
+    exactly those the DDS rule names — one receiver, the most specific enabled one, none if no mask enables the status -/
+theorem C33_dispatch (e : Event) (c : Chain) : callbacks e c = specCallbacks e c := by
+  rw [callbacks_eq_dispatch]
+  exact C33_dispatch_decision e c
 
-/-- C33 (never a wrong listener), full: whoever is called back is the receiver the rule names, with the right callback -/
+/-- C33 (at most one callback per status change), for ALL events, masks and placements -/
+theorem C33_at_most_one (e : Event) (c : Chain) : (callbacks e c).length ≤ 1 := by
+  rw [C33_dispatch]
+  cases e <;> simp only [specCallbacks, deliverTo] <;> (repeat' split) <;> simp
+
+/-- C33 (never a wrong listener): whoever is called back is the receiver the rule names, with the right callback -/
 theorem C33_never_wrong_listener (e : Event) (c : Chain) (m : Mail) (hm : m ∈ callbacks e c) :
     m ∈ specCallbacks e c := by
-  have hm' : m ∈ dispatch e c := (List.mem_filter.mp hm).1
-  by_cases hd : e = .dataArrived
-  · subst hd
-    revert hm'
-    simp only [dispatch, specCallbacks, dataArrivedAsCoded, firstEnabled, deliverTo, sendTo, Chain.slot]
-    (repeat' split) <;> simp_all
-  · rw [← C33_dispatch_decision e c hd]
-    exact hm'
+  rw [← C33_dispatch]; exact hm
 
-/-- C33 (exactly the named receiver) for every configuration outside the two open findings:
-    excluded are D38 (DATA_AVAILABLE enabled only above the reader) and D-listen-3 (installed topic listener) -/
-theorem C33_dispatch_partial (e : Event) (c : Chain) (h : Covered e c) :
-    callbacks e c = specCallbacks e c := by
+/-- C33 (once per change, in time): a worker iteration that finds no new status change makes no callback — an endpoint
+    that is still incompatible or still type-inconsistent is evaluated again but not notified again -/
+theorem C33_iteration_without_change_is_silent (w : World) : (iterate w).log = w.log := rfl
+
+/-- an endpoint already known as incompatible / inconsistent does not change the status again -/
+theorem C33_known_endpoint_not_renotified (w : World) (n who : String) (e : Ent) (hf : w.find n = some e)
+    (hk : e.known.contains who = true) : noteKnown w n who = (w, false) := by
+  unfold noteKnown
+  simp only [hf, hk, if_true]
+
+/-! ### the code before the patches (regression witnesses; each was replayed on the real code, see notes/w2a.md) -/
+
+/-- the old code reached the named receiver outside the two findings -/
+theorem C33_dispatch_old_partial (e : Event) (c : Chain) (h : CoveredOld e c) :
+    callbacksOld e c = specCallbacks e c := by
   by_cases ht : e = .inconsistentTopic
   · subst ht
-    simp only [Covered] at h
+    simp only [CoveredOld] at h
     cases h1 : c.entity.enabled .inconsistentTopic <;> cases h2 : c.entity.installed <;>
       cases h3 : c.participant.enabled .inconsistentTopic <;> cases h4 : c.participant.installed <;>
-      simp_all [callbacks, dispatch, specCallbacks, chain2, levels, firstEnabled, deliverTo, sendTo, Chain.slot,
-        Event.status, taskInvokes]
-  · rw [callbacks_eq_dispatch e c ht]
+      simp_all [callbacksOld, dispatchOld, dispatch, specCallbacks, chain2, levels, firstEnabled, deliverTo, sendTo,
+        Chain.slot, Event.status, taskInvokesOld]
+  · rw [callbacksOld_eq_dispatchOld e c ht]
     by_cases hd : e = .dataArrived
     · subst hd
-      simp only [Covered] at h
-      simp only [dispatch, specCallbacks, dataArrivedAsCoded, firstEnabled, deliverTo, sendTo, Chain.slot]
+      simp only [CoveredOld] at h
+      simp only [dispatchOld, specCallbacks, dataArrivedOld, firstEnabled, deliverTo, sendTo, Chain.slot]
       (repeat' split) <;> simp_all
-    · exact C33_dispatch_decision e c hd
+    · have : dispatchOld e c = dispatch e c := by cases e <;> first | rfl | exact absurd rfl hd
+      rw [this]
+      exact C33_dispatch_decision e c
 
-/-- what the repair of D38 would give: with the two missing `else if` branches the data rule holds for ALL configurations -/
-theorem C33_data_dispatch_repaired (c : Chain) :
-    dataArrivedRepaired c = specCallbacks .dataArrived c := by
-  simp only [dataArrivedRepaired, specCallbacks, chain3, firstEnabled, deliverTo, sendTo, Chain.slot]
-  (repeat' split) <;> simp_all
-
-/-- D38: subscriber listener with DATA_AVAILABLE, reader without listener: the rule names the subscriber, the code calls nobody -/
-theorem C33_data_available_counterexample :
+/-- D38 (before the patch): subscriber listener with DATA_AVAILABLE, reader without listener: the rule names the subscriber,
+    the old code called nobody; the repaired code calls the subscriber -/
+theorem C33_data_available_old_counterexample :
     let c : Chain := { entity := Slot.none, group := { installed := true, mask := [.dataAvailable] },
                        participant := { installed := true, mask := [.dataAvailable] } }
-    callbacks .dataArrived c = [] ∧ specCallbacks .dataArrived c = [{ level := .group, cb := .dataAvailable }] := by
+    callbacksOld .dataArrived c = [] ∧ specCallbacks .dataArrived c = [{ level := .group, cb := .dataAvailable }] ∧
+    callbacks .dataArrived c = [{ level := .group, cb := .dataAvailable }] := by
   decide
 
-/-- D-listen-3: topic created with a listener and mask INCONSISTENT_TOPIC: the mail is sent to the topic's listener
-    task, which never calls `on_inconsistent_topic`; the participant's listener is not tried -/
-theorem C33_topic_listener_counterexample :
+/-- D-listen-3 (before the patch): topic created with a listener and mask INCONSISTENT_TOPIC: the mail was sent to the topic's
+    listener task, which never called `on_inconsistent_topic`; the participant's listener was not tried -/
+theorem C33_topic_listener_old_counterexample :
     let c : Chain := { entity := { installed := true, mask := [.inconsistentTopic] }, group := Slot.none,
                        participant := { installed := true, mask := [.inconsistentTopic] } }
-    callbacks .inconsistentTopic c = [] ∧
-    specCallbacks .inconsistentTopic c = [{ level := .entity, cb := .inconsistentTopic }] := by
+    callbacksOld .inconsistentTopic c = [] ∧
+    specCallbacks .inconsistentTopic c = [{ level := .entity, cb := .inconsistentTopic }] ∧
+    callbacks .inconsistentTopic c = [{ level := .entity, cb := .inconsistentTopic }] := by
   decide
 
-/-- D-listen-1 (exactly ONE notification per change is violated in time): an incompatible pair is re-evaluated by every
-    worker iteration; each iteration notifies the listener again although no status changed -/
-theorem C33_renotified_every_iteration_counterexample :
+/-- D-listen-1 / D-listen-2 (before the patches): an incompatible pair was re-evaluated by every worker iteration and each
+    iteration notified the listener again although no status changed; the repaired iteration is silent -/
+theorem C33_renotified_every_iteration_old_counterexample :
     let p : Ent := { name := "P", kind := .participant, parent := "", slot := { installed := true, mask := [.offeredIncompatibleQos] } }
     let g : Ent := { name := "pub", kind := .publisher, parent := "P" }
     let wr : Ent := { name := "w", kind := .writer, parent := "pub" }
     let w0 : World := { ents := [p, g, wr], persist := [(.offeredIncompatibleQos, "w")] }
-    (iterate w0).log.length = 1 ∧ (iterate (iterate w0)).log.length = 2 := by
+    (iterateOld w0).log.length = 1 ∧ (iterateOld (iterateOld w0)).log.length = 2 ∧ (iterate (iterate w0)).log.length = 0 := by
   decide
 
 /-! ### non-vacuity -/
@@ -161,16 +180,32 @@ example :
     callbacks .sampleRejected { entity := nil, group := on, participant := on } = [] := by
   decide
 
-/-- `Covered` is satisfiable for the two restricted events, with a callback actually made -/
+/-- new data reaches the subscriber and the participant when the more specific levels do not enable DATA_AVAILABLE -/
 example :
-    let c : Chain := { entity := { installed := true, mask := [.dataAvailable] },
-                       group := { installed := true, mask := [.dataAvailable] }, participant := Slot.none }
-    Covered .dataArrived c ∧ callbacks .dataArrived c = [⟨.entity, .dataAvailable⟩] := by
+    let on : Slot := { installed := true, mask := [.dataAvailable] }
+    callbacks .dataArrived { entity := on, group := on, participant := on } = [⟨.entity, .dataAvailable⟩] ∧
+    callbacks .dataArrived { entity := Slot.none, group := on, participant := on } = [⟨.group, .dataAvailable⟩] ∧
+    callbacks .dataArrived { entity := Slot.none, group := Slot.none, participant := on } = [⟨.participant, .dataAvailable⟩] := by
   decide
 
+/-- the hypothesis of the old partial theorem is satisfiable with a callback actually made -/
 example :
     let c : Chain := { entity := Slot.none, group := Slot.none, participant := { installed := true, mask := [.inconsistentTopic] } }
-    Covered .inconsistentTopic c ∧ callbacks .inconsistentTopic c = [⟨.participant, .inconsistentTopic⟩] := by
+    CoveredOld .inconsistentTopic c ∧ callbacksOld .inconsistentTopic c = [⟨.participant, .inconsistentTopic⟩] := by
+  decide
+
+/-- two incompatible readers change a writer's status twice, the same reader met again does not -/
+example :
+    let p : Ent := { name := "P", kind := .participant, parent := "", slot := { installed := true, mask := [.offeredIncompatibleQos] } }
+    let g : Ent := { name := "pub", kind := .publisher, parent := "P" }
+    let s : Ent := { name := "sub", kind := .subscriber, parent := "P" }
+    let t : Ent := { name := "t", kind := .topic, parent := "P", tname := "T", ty := "ki" }
+    let wr : Ent := { name := "w", kind := .writer, parent := "pub", topic := "t", reliable := false }
+    let r1 : Ent := { name := "r1", kind := .reader, parent := "sub", topic := "t", reliable := true }
+    let r2 : Ent := { name := "r2", kind := .reader, parent := "sub", topic := "t", reliable := true }
+    let w0 : World := { ents := [p, g, s, t, wr, r1, r2] }
+    (meet w0 "w" "r1").log.length = 1 ∧ (meet (meet w0 "w" "r1") "w" "r1").log.length = 1 ∧
+    (meet (meet w0 "w" "r1") "w" "r2").log.length = 2 := by
   decide
 
 /-- data-on-readers wins over the reader's data-available -/
